@@ -454,7 +454,7 @@ func TestVerifC03TokenOutage(t *testing.T) {
 		st.Eval()
 		e := c03Server(t)
 		e.mr.FlushAll()
-		e.pad(30)
+		e.pad(40)
 		rate, burst := c03DrawConfig(t, st)
 		k := rapid.IntRange(1, 4).Draw(t, "instances")
 		w := c03NewTWorld(t, st, e, rate, burst, k, c03DrawT0(t))
